@@ -21,7 +21,6 @@ def scratch(pid):
     tag = "" if REPO == "/repo" else "-" + hashlib.sha1(REPO.encode()).hexdigest()[:8]
     base = "run-" + pid + tag
     import glob
-    shutil.rmtree(os.path.join(workdir(), base), ignore_errors=True)   # the name used before runs had directories of their own
     for old in glob.glob(os.path.join(workdir(), base + "-p[0-9]*")):
         try:
             owner = int(old.rsplit("-p", 1)[1])
